@@ -185,7 +185,16 @@ class _G(object):
                     items.append((full[i], full[j]))
                     continue
             items.append((full[i], full[i]))
-        return Alpha(items)
+        # write the alphabet as disjoint items (asn1tools mis-counts overlapping
+        # ranges; overlapping unions are left to a dedicated probe, see DESIGN)
+        chars = sorted(set(c for a, b in items for c in map(chr, range(ord(a), ord(b) + 1))))
+        out = []
+        for c in chars:
+            if out and ord(out[-1][1]) + 1 == ord(c) and self.chance(85):
+                out[-1] = (out[-1][0], c)
+            else:
+                out.append((c, c))
+        return Alpha(out)
 
     # ---- types
     def prim(self, mod, depth):
